@@ -43,6 +43,7 @@ func (c19) Gen(r *rand.Rand, tier string, run int) *core.Case {
 	c.Params["multi_addr"] = r.IntN(2)
 	c.Params["addr_order"] = r.IntN(2)
 	c.Params["subscribe"] = r.IntN(2)
+	c.Params["twin_services"] = r.IntN(2)
 	if r.IntN(6) == 0 {
 		c.Params["testrange"] = 1
 	}
@@ -149,6 +150,11 @@ func (c19) Run(c *core.Case, env *core.Env) {
 		}
 		if err == nil {
 			_, err = srv.NewService(fmt.Sprintf("Probe%d", i), probe.ProbeObject(&ProbeImpl{Env: env, Obj: i}))
+			if err == nil && c.P("twin_services", 0) == 1 {
+				// a second service behind the same endpoint: the session
+				// reaches both through one connection
+				_, err = srv.NewService(fmt.Sprintf("Probe%db", i), probe.ProbeObject(&ProbeImpl{Env: env, Obj: 50 + i}))
+			}
 		}
 		zzsim.SetNode("harness")
 		if err != nil {
@@ -231,6 +237,9 @@ func (c19) Run(c *core.Case, env *core.Env) {
 				zzsim.SetNode("client")
 				for i, op := range by[a] {
 					name := fmt.Sprintf("Probe%d", op.X)
+					if c.P("twin_services", 0) == 1 && op.X >= 1 && int(op.X) <= c.P("servers", 1) && (i+a)%3 == 0 {
+						name += "b"
+					}
 					if int(op.X) > c.P("servers", 1) {
 						if !st.lateOK {
 							continue
@@ -389,7 +398,7 @@ func (c19) Check(c *core.Case, env *core.Env, res zzsim.Result, v *core.Verdict)
 			if _, n, ok := strings.Cut(h.Arg, "@"); ok {
 				name = n
 			}
-			idx, _ := strconv.Atoi(strings.TrimPrefix(name, "Probe"))
+			idx, _ := strconv.Atoi(strings.TrimSuffix(strings.TrimPrefix(name, "Probe"), "b"))
 			if name == "ProbeTestRange" {
 				env.Probe("request-for-an-unreachable-service-refused")
 			} else if st.racing && h.Client > 100 && h.Call >= st.phase2 && name != "ProbeLate" && idx < len(st.addrs) && st.addrs[idx] == st.broken {
@@ -410,6 +419,10 @@ func (c19) Check(c *core.Case, env *core.Env, res zzsim.Result, v *core.Verdict)
 			}
 			if obj == "Early" {
 				obj = "78"
+			}
+			if strings.HasSuffix(obj, "b") {
+				n, _ := strconv.Atoi(strings.TrimSuffix(obj, "b"))
+				obj = strconv.Itoa(50 + n)
 			}
 			if !strings.HasPrefix(h.Out, key+":") || !strings.Contains(h.Out, "|o"+obj+"|") {
 				bad("wrong-reply", "%s returned %q", h, h.Out)
